@@ -5,7 +5,9 @@ import (
 	"sort"
 	"strings"
 
+	"github.com/hashicorp/go-hclog"
 	"github.com/jimlambrt/gldap"
+	"github.com/jimlambrt/gldap/testdirectory"
 
 	"verif/internal/sber"
 )
@@ -15,14 +17,14 @@ func init() {
 		ID: "C20", Level: "exploration", Primary: "histories", EvalCount: "steps",
 		Rule: "histories of up to 40 operations over a pool of 8 user DNs (cn=u<a..h>,ou=people,...) and 4 group DNs (cn=g<a..d>,ou=groups,...) with fixed-width names (no DN is a substring of another), issued by " +
 			"1..3 clients strictly one operation at a time: Add (0..4 attributes, 1..3 values), Modify of user entries (add-value on new and existing attributes, delete-attribute, replace of an existing attribute, several " +
-			"changes per request, multi-valued), Delete (users and groups, present and missing), Search (people base with (cn=X); base = entry DN; groups base), SetUsers/SetGroups (model reset with fresh objects). " +
+			"changes per request, multi-valued), Delete (users and groups, present and missing), Search (people base with (cn=X); base = entry DN; groups base), SetUsers/SetGroups (model reset with fresh objects, or with entries built by the library's own NewUsers(WithMembersOf) helper, which shares one memberOf slice between all users), and searches with unusual parameters (typesOnly, limits, attribute lists) whose results are not asserted but which must not change the store. " +
 			"A reference model (DN -> attribute -> values) is stepped alongside; after every mutating step the affected entry and one other pool entry are searched and compared, and at the end of each history every pool DN. " +
 			"Values added through Modify may appear plain or BER-wrapped (ConvertString). distinct_nontrivial = distinct operation-kind sequences (histories) containing at least one mutation followed by a search",
 		Assume: []string{"not asserted (the statement is silent): modify of group entries, add of a DN that exists as a group, replace of a missing attribute, the result code of an empty search, attribute order within an entry"},
 		Phases: func(tier string, seed int64) []Phase {
 			return []Phase{{Name: "histories-plain", Run: func(c *Ctx) { c20Run(c, "plain") }}, {Name: "histories-tls", Run: func(c *Ctx) { c20Run(c, "tls") }}}
 		},
-		MinObserved: []string{"steps", "searches_compared", "op/add", "op/modify", "op/delete", "op/set"},
+		MinObserved: []string{"steps", "searches_compared", "op/add", "op/modify", "op/delete", "op/set", "searches_with_odd_parameters"},
 	})
 }
 
@@ -43,7 +45,7 @@ type c20Model struct {
 func c20UserDN(i int) string  { return fmt.Sprintf("cn=u%c,%s", 'a'+i, c20People) }
 func c20GroupDN(i int) string { return fmt.Sprintf("cn=g%c,%s", 'a'+i, c20Groups) }
 
-var c20AttrNames = []string{"mail", "description", "sn", "telephoneNumber", "title"}
+var c20AttrNames = []string{"mail", "description", "sn", "telephoneNumber", "title", "memberOf", "email"}
 
 func c20Vals(r *Rand, n int) []string {
 	var out []string
@@ -161,6 +163,8 @@ func c20History(c *Ctx, td interface {
 	SetGroups(...*gldap.Entry)
 }, clients []*c20Client, r *Rand, transport string, h int) bool {
 	model := &c20Model{Users: map[string]*c20Entry{}, Groups: map[string]*c20Entry{}}
+	useHelpers := r.Chance(35)
+	tlog, _ := testdirectory.NewLogger(hclog.New(&hclog.LoggerOptions{Level: hclog.Off}))
 	reset := func() {
 		model.Users, model.Groups = map[string]*c20Entry{}, map[string]*c20Entry{}
 		for i := 0; i < 8; i++ {
@@ -179,7 +183,28 @@ func c20History(c *Ctx, td interface {
 				model.Groups[c20GroupDN(i)] = &c20Entry{Attrs: map[string][]string{"member": {c20UserDN(r.Intn(8))}}}
 			}
 		}
-		td.SetUsers(model.entries(true)...)
+		if useHelpers {
+			// entries built by the library's own helpers: testdirectory.NewUsers(WithMembersOf) hands the SAME
+			// memberOf slice to every user - the store must still treat the entries as independent
+			var names []string
+			for i := 0; i < 8; i++ {
+				if _, ok := model.Users[c20UserDN(i)]; ok {
+					names = append(names, fmt.Sprintf("u%c", 'a'+i))
+				}
+			}
+			memberOf := testdirectory.NewMemberOf(tlog, []string{"ga", "gb", "gc"})
+			users := testdirectory.NewUsers(tlog, names, testdirectory.WithMembersOf(tlog, memberOf...))
+			for _, u := range users {
+				e := &c20Entry{Attrs: map[string][]string{}}
+				for _, a := range u.Attributes {
+					e.Attrs[a.Name] = append([]string{}, a.Values...)
+				}
+				model.Users[u.DN] = e
+			}
+			td.SetUsers(users...)
+		} else {
+			td.SetUsers(model.entries(true)...)
+		}
 		td.SetGroups(model.entries(false)...)
 	}
 	reset()
@@ -388,6 +413,24 @@ func c20History(c *Ctx, td interface {
 				return false
 			}
 		case 8: // search only
+			if r.Chance(50) {
+				// a search with unusual parameters (typesOnly, limits, attribute selection): what it returns is not
+				// asserted (the statement is silent), but it is a READ - every later search must still reflect the store
+				base := pick(r, []string{c20People, c20Groups, c20UserDN(r.Intn(8))})
+				op := sber.Search{Base: []byte(base), Scope: int64(r.Intn(3)), Deref: int64(r.Intn(4)), SizeLimit: int64(r.Intn(3)), TimeLimit: int64(r.Intn(3)),
+					TypesOnly: r.Bool(), Filter: sber.EqFilter("cn", pick(r, []string{"u", "g", "ua", "zz"})), Attrs: [][]byte{[]byte("cn"), []byte("mail")}}.Node()
+				trace = append(trace, fmt.Sprintf("search with odd parameters on %s", base))
+				kinds = append(kinds, "s")
+				c.Count("searches_with_odd_parameters", 1)
+				if _, _, err := k.roundTrip(op, sber.AppSearchResultDone); err != nil {
+					fail("search got no well-formed answer", err.Error())
+					return false
+				}
+				if !verify(k, c20UserDN(r.Intn(8))) || !verify(k, c20GroupDN(r.Intn(4))) {
+					return false
+				}
+				continue
+			}
 			trace = append(trace, "search")
 			kinds = append(kinds, "S")
 			dn := c20UserDN(r.Intn(8))
